@@ -245,4 +245,23 @@ def pexec (p : Play) : List POp → Play
   | [] => p
   | a :: as => pexec (pstep p a).1 as
 
+/-! ## the environment discipline under which pre-join ORDER is claimed (`play_in_send_order_partial`) -/
+
+/-- the generic branch of `handlePluginMessage` writes directly (both phases complete) -/
+def Play.goesDirect (p : Play) : Bool :=
+  match p.cur with
+  | none => false
+  | some s => p.hasConn s && p.inPlay s && (p.bphase s != .transition) && p.clientComplete && (p.bphase s).complete
+
+/-- the op does not write directly past a non-empty queue -/
+def Play.opOK (p : Play) : POp → Bool
+  | .msg _ => !p.goesDirect || p.q.queue.isEmpty
+  | _ => true
+
+/-- every op along the run respects `opOK` -/
+def pDisciplined (p : Play) : List POp → Bool
+  | [] => true
+  | a :: as => p.opOK a && pDisciplined (pstep p a).1 as
+
+
 end Gate.C24
